@@ -29,7 +29,8 @@ import gen_c15 as G
 PROP = "C18"
 RULE = ("seeded random coolers (1-5 chromosomes from a pool of names incl. digits/underscores/prefixes of each other, fixed or variable bins, "
         "random pixels, root or nested group, enum or integer chromosome encoding) x chains of 1-3 partial renaming maps (swaps, longer/shorter, "
-        "absent keys, identity entries) with duplicate-free results, plus a fixed corpus; non-trivial = at least one chromosome actually changes its name; distinct by input hash")
+        "absent keys, identity entries) with duplicate-free results; in 60% of the chains of length >= 2 the renamings are issued through DIFFERENT Cooler objects of the "
+        "same file opened before the first renaming (stale cached names), checked after each call, on the last issuing object and after reopening; plus a fixed corpus; non-trivial = at least one chromosome actually changes its name; distinct by input hash")
 TRUSTED = ["h5py raw reads are the observation channel for dataset contents and enum headers",
            "pandas Index.rename(dict) is modelled as simultaneous substitution"]
 ASSUMPTIONS = ["renaming maps whose result has no duplicate names (claimed domain, DESIGN section 8)", "ASCII chromosome names"]
@@ -121,6 +122,22 @@ def corpus():
     return out
 
 
+def stale_corpus():
+    """renamings through Cooler objects whose cached names are stale w.r.t. an earlier renaming of the same file;
+    maps mixing entries known and unknown to the stale cache"""
+    base = {"names": ["chr1", "chr2", "chr3"], "lengths": [25, 20, 7],
+            "bins": [("chr1", 0, 10), ("chr1", 10, 20), ("chr1", 20, 25), ("chr2", 0, 10), ("chr2", 10, 20), ("chr3", 0, 7)],
+            "pixels": [(0, 0, 3), (0, 4, 1), (1, 2, 5), (2, 5, 2), (3, 3, 7), (4, 5, 9), (5, 5, 1)], "root": "/", "enc": "enum"}
+    out = []
+    for enc in ("enum", "int"):
+        c = dict(base, enc=enc)
+        out.append((c, [{"chr1": "A"}, {"A": "chrom_one", "chr3": "C"}], [0, 1]))
+        out.append((c, [{"chr1": "A"}, {"A": "B"}, {"B": "chr1", "chr2": "two"}], [0, 1, 2]))
+        out.append((c, [{"chr1": "chr2", "chr2": "chr1"}, {"chr1": "x"}], [1, 0]))
+        out.append((c, [{"chr2": "M"}, {"M": "chr2"}, {"chr2": "N", "nope": "chr1"}], [0, 1, 0]))
+    return out
+
+
 # ------------------------------------------------------------------ implementation side
 def build(d, k, c):
     import cooler
@@ -181,18 +198,25 @@ def observe(c, names_now):
     return obs
 
 
-def run_impl(d, k, c, maps):
+def run_impl(d, k, c, maps, objs=None):
+    """objs[i] = which Cooler object (all opened BEFORE the first renaming, so later ones hold stale cached
+    names) issues the i-th rename_chroms; default: one object for the whole chain"""
     import cooler
     fn, uri = build(d, k, c)
     before_tables, before_attrs = raw_tables(fn, c["root"])
-    clr = cooler.Cooler(uri)
-    pre = observe(clr, c["names"])
+    objs = list(objs) if objs else [0] * len(maps)
+    clrs = [cooler.Cooler(uri) for _ in range(max(objs + [0]) + 1)]
+    clr = clrs[objs[-1]] if objs else clrs[0]
+    pre = observe(clrs[0], c["names"])
     outcome = "Ok"
-    for m in maps:
-        o, _ = G.guarded(cooler.rename_chroms, clr, dict(m))
+    after_call = []
+    for m, oi in zip(maps, objs):
+        o, _ = G.guarded(cooler.rename_chroms, clrs[oi], dict(m))
         if o != "Ok":
             outcome = o
             break
+        o2, v2 = G.guarded(lambda: [str(x) for x in clrs[oi].chromnames])
+        after_call.append(v2 if o2 == "Ok" else o2)
     names_now = c["names"]
     for m in maps:
         names_now = apply_map(names_now, m)
@@ -209,7 +233,7 @@ def run_impl(d, k, c, maps):
     if o3 != "Ok":
         dump = "unreadable:" + o3
     return {"outcome": outcome, "pre": pre, "same": same, "reopened": reopened, "before": (before_tables, before_attrs),
-            "after": (after_tables, after_attrs), "dump": dump, "names_now": names_now}
+            "after": (after_tables, after_attrs), "dump": dump, "names_now": names_now, "after_call": after_call}
 
 
 # ------------------------------------------------------------------ oracle
@@ -228,6 +252,12 @@ def oracle(c, maps, r):
     if r["outcome"] != "Ok":
         return [{"what": "rename_chroms raised", "outcome": r["outcome"]}]
     exp_names = r["names_now"]
+    cur = list(c["names"])
+    for i, m in enumerate(maps):          # sequential composition of the simultaneous substitutions on the FILE's names
+        cur = apply_map(cur, m)
+        if i < len(r["after_call"]) and r["after_call"][i] != cur:
+            bad.append({"what": "chromnames of the issuing object right after its own call", "call": i,
+                        "got": r["after_call"][i], "expected": cur})
     old_of = dict(zip(exp_names, c["names"]))
     lab_old = [b[0] for b in c["bins"]]
     for tag in ("same", "reopened"):
@@ -312,12 +342,23 @@ def run(ctx):
     d = str(ctx.tmp / "coolers")
     os.makedirs(d, exist_ok=True)
     cases = [(c, m, "corpus") for c, m in corpus()]
+    for c, m, objs in stale_corpus():
+        cases.append((dict(c, objs=objs), m, "corpus-stale"))
     for _ in range(1200 if thorough else 260):
         c = gen_cooler(rng)
-        cases.append((c, gen_maps(rng, c["names"]), "random"))
+        maps = gen_maps(rng, c["names"])
+        kind = "random"
+        if len(maps) >= 2 and rng.random() < 0.6:
+            # the renamings are issued through different Cooler objects opened before the first one
+            nobj = rng.randint(2, len(maps))
+            c["objs"] = [rng.randrange(nobj) for _ in maps]
+            if len(set(c["objs"])) == 1:
+                c["objs"][-1] = (c["objs"][0] + 1) % nobj
+            kind = "random-stale"
+        cases.append((c, maps, kind))
     results = []
     for k, (c, maps, kind) in enumerate(cases):
-        results.append(run_impl(d, k, c, maps))
+        results.append(run_impl(d, k, c, maps, c.get("objs")))
         try:
             os.remove(os.path.join(d, f"c{k}.cool"))
         except OSError:
@@ -325,7 +366,7 @@ def run(ctx):
     exprs = [model_expr(c, maps, r["before"]) for (c, maps, _), r in zip(cases, results)]
     vals = C.coq_eval(IMPORTS, exprs, shard=40, jobs=4, timeout=900, tmpdir=ctx.tmp / "model")
     for (c, maps, kind), r, v in zip(cases, results, vals):
-        case = {"cooler": {k_: c[k_] for k_ in ("names", "lengths", "bins", "pixels", "root", "enc")}, "maps": maps}
+        case = {"cooler": {k_: c[k_] for k_ in ("names", "lengths", "bins", "pixels", "root", "enc")}, "maps": maps, "objs": c.get("objs")}
         changed = r["names_now"] != c["names"]
         ctx.case(case, nontrivial=changed, kind=f"{kind}:{c['enc']}:{len(maps)}")
         for b in oracle(c, maps, r):
@@ -381,7 +422,7 @@ def replay(ctx, case):
     c["pixels"] = [tuple(p) for p in c["pixels"]]
     d = str(ctx.tmp / "replay")
     os.makedirs(d, exist_ok=True)
-    r = run_impl(d, 0, c, case["maps"])
+    r = run_impl(d, 0, c, case["maps"], case.get("objs"))
     bad = oracle(c, case["maps"], r)
     for b in bad:
         print("  ", b)
